@@ -299,12 +299,20 @@ def s2_s3_update(ctx):
             continue
         # the portfolio the order was queued for: the key of the queue it was taken from
         qkey = g.loc[2] if g.loc[0] == 'sub' else None
+        qknown = True
+        if g.loc[0] == 'sub' and g.loc[2] == num(1) and g.loc[1][0] == 'elem' and g.loc[1][1][0] == 'call' and g.loc[1][1][1] == ('meth', 'items'):
+            qkey = ('sub', g.loc[1], num(0))          # for key, q in table.items(): q.get()  - the queue's key is the pair's first component
+        elif g.loc[0] == 'elem' or (g.loc[0] == 'sub' and g.loc[1][0] == 'elem'):
+            qkey, qknown = None, False                 # the queue is reached without its key (values(), a list of queues): the tag is not compared
         tag_forms = [a_ for a_, v_ in comps.items() if v_ is not None and qkey is not None and T.teq(v_, qkey)]
         roots = [t for t in T.subterms(batch) if t[0] == 'list' and t[1] == ()]
         ctx.require(len(app) == 1 and len(roots) >= 1, 'C04.S3', 'the executed batch is exactly the list of dequeued orders (nothing dropped or added)', g.site,
                     'batch = %s' % fmt(batch)[:200], key='C04.S3|batch')
-        ctx.require(bool(tag_forms), 'C04.S3', 'each order is tagged with the portfolio whose queue it came from', g.site,
-                    'element %s, queue key %s' % (fmt(ev_)[:100], fmt(qkey) if qkey else None), key='C04.S3|tag')
+        if not qknown:
+            ctx.undecided('C04.S3', 'each order is tagged with the portfolio whose queue it came from', g.site, 'queue reached as %s' % fmt(g.loc)[:80])
+        else:
+            ctx.require(bool(tag_forms), 'C04.S3', 'each order is tagged with the portfolio whose queue it came from', g.site,
+                        'element %s, queue key %s' % (fmt(ev_)[:100], fmt(qkey) if qkey else None), key='C04.S3|tag')
         # ---- the sort key applied to one element must be the direction of its order (ascending: sells -1 before buys +1; stable: submission order per side)
         def key_of(kf):
             """value of the key function on the element `el`, as a term (or None)"""
